@@ -27,6 +27,13 @@ func (p *ContinuousPool) Start(ctx context.Context) {
 	workerCtx, workerCtxCancel := context.WithCancel(ctx)
 	p.workerCtxCancel = workerCtxCancel
 
+	// a context that is already over (max-duration within the 10ms guard, an interrupt
+	// before the start) must not let every worker run an iteration before the goroutine
+	// below gets to set the flag
+	if workerCtx.Err() != nil {
+		p.stopWorkers.Store(true)
+	}
+
 	workersStarted := sync.WaitGroup{}
 
 	workersStarted.Add(p.numWorkers)
